@@ -4,7 +4,6 @@ import (
 	"context"
 	"fmt"
 	"io"
-	"sync"
 	"time"
 
 	"github.com/docker/go-units"
@@ -138,7 +137,7 @@ type defaultFs struct {
 
 	// buffer cache (atm only supported for ReadAt)
 	lru      *lru.Cache // this holds leaf data in cache
-	lruLatch sync.Mutex // this ensures consistent LRU buffer pinning
+	lruLatch simLock    // this ensures consistent LRU buffer pinning (a sync.Mutex, see simyield.go)
 	leafPool FreeList
 	lruSize  int
 
